@@ -1,5 +1,6 @@
 import SamplyModel.Lemmas.ProfileCanonical
 import SamplyModel.Lemmas.ProfileIdentSer
+import SamplyModel.Lemmas.ProfileDecode
 /-!
 # C03 — every serialized profile is internally consistent (no dangling index)
 
@@ -217,7 +218,32 @@ theorem C03_canonical_injective (ops : List Op) (h : Accepted ops = true) :
       th.frames.keys.Nodup := by
   intro th hth
   obtain ⟨_, a2, _, a4, _⟩ := (Inv.run ops h).1.threads th hth
-  exact ⟨walk_injective th.stacks _ a4, a2.2.2.2.2.2.2.2.2.2.2.2.2.2⟩
+  exact ⟨walk_injective th.stacks _ a4, a2.2.2.2.2.2.2.2.2.2.2.2.2.2.1⟩
+
+/-- **Canonical interning of frames, decoding half (1): rows carry their keys.** For every accepted history
+and the profile `s` it serializes to, every thread the caller created is serialized (under its tid string)
+and *every* row `i` of its frame table, read back through `frameTable.func → funcTable.{name, fileName,
+isJS/relevantForJS, resource} → resourceTable.lib` and the frame columns (`SerThread.rowFrame`), is exactly
+the frame key interned at index `i` — name / file string indices, flags, library (index into the used
+libs), relative address, native symbol index, inline depth, category, subcategory, line, column. In
+particular two frames that differ only in their library never share a func or resource row (a model that
+followed a resource table keyed by the library *name* would not satisfy this). -/
+theorem C03_frame_rows (ops : List Op) (h : Accepted ops = true) (s : SerProfile)
+    (hs : serialize (run ops) = some s) (t : Nat) (th : Thread) (ht : (run ops).threads[t]? = some th) :
+    ∃ st ∈ s.threads, st.tid = idString th.tid ∧ st.strings = th.strings.table.strings ∧
+      ∀ (i : Nat) (k : Frame), th.frames.keys[i]? = some k → st.rowFrame i = some k := by
+  have hi := Inv.run ops h
+  obtain ⟨_, _, hthreads⟩ := serialize_parts _ hi.2 s hs
+  obtain ⟨st, hst, hser⟩ := hthreads t th ht
+  refine ⟨st, hst, (serThread_fields _ th st hser).1, ?_, ?_⟩
+  · unfold serThread at hser
+    split at hser
+    · cases hser; rfl
+    · cases hser
+  · intro i k hk
+    rw [serThread_rowFrame _ th st hser i]
+    obtain ⟨_, a2, _⟩ := hi.1.threads th (List.mem_of_getElem? ht)
+    exact a2.2.2.2.2.2.2.2.2.2.2.2.2.2.2.row i k hk
 
 /-- **Frame handles are stable.** The frame key behind a valid frame handle is the same at the end of any
 continuation of the history. -/
